@@ -16,20 +16,28 @@ PROP = dict(
         "focus_info_tangent_cone, focus_density_matches_sampler; pfsamp pfdens: focus_density_matches_sampler_phong; jbsdf: "
         "joined_energy; rbsdf also: refract_energy_le, refract_lobe_energy_pointwise; rsamp rsampd also: "
         "refract_sample_has_positive_weight; mesh also: triangle_jacobian, triangle_map_area_preserving, "
-        "join_lights_selection_proportional (zero-area triangles)"),
+        "join_lights_selection_proportional (zero-area triangles); jnest (nested JoinAreaLights, model = LTree.select/total on the "
+        "member tree the object really has, read through the hook VerifJoinedMembers): nested_join_selection_proportional, "
+        "nested_join_total_emission; jnestgrid (all N^d midpoint draw vectors, integer weights, every join's total dividing N; "
+        "expected count N^d*m/T, independent of the implementation's structure): nested_join_grid_exact, "
+        "nested_join_midpoint_grid_exact; audens fdens with narrow cones (1-minCos < cosineEpsilon): uniform_cap_cdf"),
     rule=(
         "one case = one call of a real render3d sampler / density / BSDF / light with the randomness scripted (a rand.Source "
         "replaying harness-chosen raw values, so gen.Float64()/Intn(2)/NormFloat64() return known numbers) and arguments drawn "
         "from: unit vectors incl. axis-aligned and tie cases of OrthoBasis; indices of refraction above, below and equal to 1; "
         "normal and grazing incidence; exponents 0..1e4; G in [-2,2]; radii != 1; uniforms k/2^53 incl. 0, 1-2^-53 and values "
         "on the boundaries of the cumulative tables / of the reflectance (incl. reflectance exactly 0); degenerate weights; meshes "
-        "with zero-area triangles; focus points inside/outside/filtered out, PhongFocusPoint with point == Target.  "
+        "with zero-area triangles; focus points inside/outside/filtered out and 1..1e7 radii away (cones narrower than "
+        "cosineEpsilon), PhongFocusPoint with point == Target; joined lights passed to JoinAreaLights again (random trees of "
+        "stub lights, depth <= 4, a nested join with >= 2 members in most cases, draws steered into members' intervals and "
+        "onto table boundaries; dyadic trees with the full midpoint grid of draws; nested joins of real sphere/cylinder/mesh lights).  "
         "Distinct = distinct op lines (mesh cases depend on Go's map iteration order, read back through a hook)."),
     trusted=[
         "regenerated, not hand-written: lean/M3d/Gen/Kernels.lean (Go->Lean translator harness/hlib/go2lean, run on the current "
         "source on every check) contains render3d/material.go's RefractMaterial.refract/refractInverse/refractBSDF/reflectBSDF/BSDF/"
-        "SourceDensity/DestDensity/reflectAmount, maximumCosine, LambertMaterial.SourceDensity/BSDF, HGMaterial.numericalG, "
-        "densityAroundUniform; M3d.KernelsTie.RS.* re-prove against it that the models of Model/RenderSampling.lean are those functions "
+        "SourceDensity/DestDensity/reflectAmount, maximumCosine, LambertMaterial.SourceDensity/BSDF, HGMaterial.numericalG/cosDensity/"
+        "SourceDensity/BSDF, densityAroundUniform, densityAroundDirection, PhongMaterial.specularDensity/SourceDensity/BSDF (math.Pow with "
+        "a non-integer exponent stays the abstract HasLibm.pow); M3d.KernelsTie.RS.* re-prove against it that the models of Model/RenderSampling.lean are those functions "
         "(constants = the doubles of Go's constant folding, math.Pow(x,5) = pow5 as a hypothesis validated bit for bit by the "
         "correspondence); exported ones are also executed against the real code (C06 kind gk)",
         "modelled, not verified: IEEE rounding (theorems are over ordered fields; the Float run of the same definitions is compared bit for bit with Go)",
@@ -49,7 +57,9 @@ PROP = dict(
         "Phong/Lambert reflected energy bounded lobe by lobe; cumulative-table selection (with Go's binary search) is "
         "proportional to weight; every sphere / cylinder cap / cylinder shaft / mesh-triangle sample lies on its surface with "
         "the unit outward normal for every radius; TotalEmission = emission x area; joined lights select parts in proportion to "
-        "TotalEmission and never a zero-weight part for a positive draw; the triangle map has constant Frechet-Jacobian 1/2 and "
+        "TotalEmission and never a zero-weight part for a positive draw; a joined light passed to JoinAreaLights again (any "
+        "nesting) reports the sum of its primitive lights' TotalEmission and reaches each primitive light on a cell of draws of "
+        "volume weight/total (and on a midpoint grid with exactly N^d*weight/total of the draw vectors); the triangle map has constant Frechet-Jacobian 1/2 and "
         "maps the rectangles [0,t^2]x[0,q] onto sub-triangles of area fraction t^2 q; RefractMaterial / JoinedMaterial / "
         "HGMaterial energy bounds for every linear functional; HG samples are unit vectors for every draw (clamp) and the clamp "
         "is the identity in exact arithmetic; Sphere/PhongFocusPoint densities are the ones their samplers draw from "
@@ -60,5 +70,6 @@ PROP = dict(
     level_note=(
         "Partial: the step from 'equal on the generating rectangles' / 'constant Jacobian' to equality of measures is the "
         "standard pi-lambda / change-of-variables argument and is not formalised; sampling histograms are not theorems; the delta-lobe approximation (2/eps caps) is checked only for split weights and support; "
-        "libm-dependent values are oracle arguments.  Trusted: Lean kernel + Mathlib, the Go harness and driver, math/rand's raw mapping."),
+        "libm-dependent values are oracle arguments; the nested-join kind jnest models the member tree the object really has (hook), "
+        "so only selection schemes that descend such a tree are covered there (jnestgrid is structure-independent).  Trusted: Lean kernel + Mathlib, the Go harness and driver, math/rand's raw mapping."),
 )
